@@ -227,6 +227,8 @@ class Analysis:
                             st[t.id] = 'L'
                         elif isinstance(value, ast.Tuple) and i < len(value.elts) and an.lowered(value.elts[i], st, u):
                             st[t.id] = 'L'
+                        elif value is not None and not isinstance(value, ast.Tuple) and an.container(value, st, u):
+                            st[t.id] = 'L'          # `name, = names`: an element of a container of lowered names
                         else:
                             st.pop(t.id, None)
             return st
